@@ -5,4 +5,4 @@ Extraction Language OCaml.
 Extraction "model.ml" base_anchor body_resp static_resp c20_body_ok c20_static_ok
   result_eqb shape_ok requested parse_ranges clean join2 static_path atoi trim_space dec
   ascii_lower all_ascii trim_left split beq has_prefix sub blen multipart_ctype
-  serve_clause static_clause.
+  serve_clause static_clause static_resp_cfg static_clause_cfg configured_root.
